@@ -1051,13 +1051,34 @@ class Choice(object):
 
     def encode(self, taglist):
         if _debug: Choice._debug("(%r)encode %r", self.__class__.__name__, taglist)
+        global _sequence_of_classes, _list_of_classes
 
         for element in self.choiceElements:
             value = getattr(self, element.name, None)
             if value is None:
                 continue
 
-            if issubclass(element.klass, (Atomic, AnyAtomic)):
+            if (element.klass in _sequence_of_classes) or (element.klass in _list_of_classes):
+                # a plain list (which is what decode() produces) is wrapped
+                # by a helper, the same way Sequence.encode() does it
+                if isinstance(value, element.klass):
+                    helper = value
+                else:
+                    helper = element.klass(value)
+
+                # encode an opening tag
+                if element.context is not None:
+                    taglist.append(OpeningTag(element.context))
+
+                # encode the value
+                helper.encode(taglist)
+
+                # encode a closing tag
+                if element.context is not None:
+                    taglist.append(ClosingTag(element.context))
+                break
+
+            elif issubclass(element.klass, (Atomic, AnyAtomic)):
                 # a helper cooperates between the atomic value and the tag
                 helper = element.klass(value)
 
@@ -1114,8 +1135,8 @@ class Choice(object):
                 # check for context encoding
                 if element.context is None:
                     raise NotImplementedError("choice of a SequenceOf must be context encoded")
-                # match the context tag number
-                if tag.tagClass != Tag.contextTagClass or tag.tagNumber != element.context:
+                # a list is enclosed in opening/closing tags, match the opening tag
+                if tag.tagClass != Tag.openingTagClass or tag.tagNumber != element.context:
                     continue
                 taglist.Pop()
 
@@ -1213,6 +1234,7 @@ class Choice(object):
     def dict_contents(self, use_dict=None, as_class=dict):
         """Return the contents of an object as a dict."""
         if _debug: Choice._debug("dict_contents use_dict=%r as_class=%r", use_dict, as_class)
+        global _sequence_of_classes, _list_of_classes
 
         # make/extend the dictionary of content
         if use_dict is None:
@@ -1224,7 +1246,10 @@ class Choice(object):
             if value is None:
                 continue
 
-            if issubclass(element.klass, Atomic):
+            if (element.klass in _sequence_of_classes) or (element.klass in _list_of_classes):
+                helper = value if isinstance(value, element.klass) else element.klass(value)
+                mapped_value = helper.dict_contents(as_class=as_class)
+            elif issubclass(element.klass, Atomic):
                 mapped_value = value                    ### ambiguous
             elif issubclass(element.klass, AnyAtomic):
                 mapped_value = value.value              ### ambiguous
